@@ -21,7 +21,8 @@ var (
 	Widget  = &sim.Kind{Group: "apps.ex", Version: "v1", Resource: "widgets", Kind: "Widget", Namespaced: true, StatusSub: true}
 	CWidget = &sim.Kind{Group: "apps.ex", Version: "v1", Resource: "cwidgets", Kind: "CWidget", Namespaced: false}
 	Other   = &sim.Kind{Group: "", Version: "v1", Resource: "others", Kind: "Other", Namespaced: true}
-	Kinds   = []*sim.Kind{Thing, NoThing, CThing, Leaf, Widget, CWidget, Other}
+	Gadget  = &sim.Kind{Group: "apps.ex", Version: "v1", Resource: "gadgets", Kind: "Gadget", Namespaced: true, StatusSub: true}
+	Kinds   = []*sim.Kind{Thing, NoThing, CThing, Leaf, Widget, CWidget, Other, Gadget}
 )
 
 const LastApplied = "metacontroller.k8s.io/last-applied-configuration"
